@@ -1,6 +1,7 @@
 package rv
 
 import (
+	"fmt"
 	"go/token"
 	"strings"
 
@@ -10,7 +11,7 @@ import (
 func init() {
 	Registry["C04"] = RuleDef{Module: ".", Run: runC04,
 		Technique:   "must-pass (post-dominance style) rules on every teardown path, sibling comparison of the multiplexer's request methods, pairing rule for the single-flight connect latch, guard rules on the stores' Close",
-		Explanation: "Decides that every wake-up mechanism the property lists is wired on every path: (R04a) after the reader exits, _background always closes the three subscription registries, swaps out and closes the Pub/Sub hook channel, closes the cache store, calls both invalidation callbacks with nil, drains the queue while calls are in flight, waits for the writer and publishes the final state; (R04b) _exit latches the error, closes the socket and runs the close hook on every path; (R04c) the failure arms of the synchronous paths latch the error, close the socket and start the background cleanup; (R04d) every request method of the multiplexer that uses a shared wire tests isBroken on its result and resets the slot to the initial wire, the blocking paths close an errored wire and always give it back, and the single-flight connect latch taken in _pipe is released on every path of its owner; (R04e) lru.Close / adapter.Close / subs.Close fail or close every pending waiter and disable further flights, and Flight creates no flight after Close; (R04f) the keep-alive watchdog turns a missing PONG into a deadline error and every unresolved error reaches _exit; (R04g) pipe.Close latches ErrClosing before changing state and always closes the socket and the secondary RESP2 Pub/Sub pipe; mux.Close marks every slot dead before closing the previous wire and both pools.",
+		Explanation: "Decides that every wake-up mechanism the property lists is wired on every path: (R04a) after the reader exits, _background always closes the three subscription registries, swaps out and closes the Pub/Sub hook channel, closes the cache store, calls both invalidation callbacks with nil, drains the queue while calls are in flight, waits for the writer and publishes the final state; (R04b) _exit latches the error, closes the socket and runs the close hook on every path; (R04c) the failure arms of the synchronous paths latch the error, close the socket and start the background cleanup; (R04d) every request method of the multiplexer that uses a shared wire tests isBroken on its result and resets the slot to the initial wire, the blocking paths close an errored wire and always give it back, and the single-flight connect latch taken in _pipe is released on every path of its owner; (R04e) lru.Close / adapter.Close / subs.Close fail or close every pending waiter and disable further flights, and Flight creates no flight after Close; (R04f) the keep-alive watchdog turns a missing PONG into a deadline error and every unresolved error reaches _exit; (R04g) pipe.Close latches ErrClosing before changing state and always closes the socket and the secondary RESP2 Pub/Sub pipe; mux.Close marks every slot dead before closing the previous wire and both pools. (R04h-state) the connection state is written only by its owners - background (0->1), the workers' failure exit (1->2 on a lost connection), the worker's end (4) and Close (0->2/1->2) - and Close, when it moved the pipe to stopping, queues a PING behind the requests in flight and waits for it before closing the socket, so that a lifetime expiry or Close does not fail (and make the clients re-send) requests that were already written.",
 		NotDecided:  "that the peer's failure is detected by the OS/network; wake-up timing of Receive and blocking commands; interleavings between Close and in-flight calls."}
 }
 
@@ -367,6 +368,7 @@ func runC04(r *Report) {
 			_ = n
 		}
 	}
+	stateTransitionRule(r, "R04h")
 	// R04g
 	if fn := r.FnAnchor("R04g", P+"Close"); fn != nil {
 		var latch *Site
@@ -407,5 +409,88 @@ func runC04(r *Report) {
 		}
 		pools := len(CallSites(fn, "rueidis.(*pool).Close"))
 		r.Ob("R04g", fn, "slots-dead-before-wires-closed", fn.Pos(), okSwap && pools == 2, "mux.Close swaps every slot to the dead wire before closing the previous wire, and closes both pools")
+	}
+}
+
+// stateTransitionRule: the connection state (0 synchronous, 1 pipelining, 2 stopping, 4 dead) is
+// written only by the functions that own the corresponding step: background (0->1), the workers'
+// failure exit _exit (1->2, the connection is lost), _background (4 at its end) and Close (0->2 / 1->2, whose CAS results
+// gate the drain fence that lets already written requests receive their replies before the socket
+// is closed). A transition to "stopping" made anywhere else makes Close skip that fence: requests
+// that were written come back with the close error and are re-sent by the clients.
+func stateTransitionRule(r *Report, rule string) {
+	P := "rueidis.(*pipe)."
+	allowed := map[string]map[string]bool{
+		P + "background":  {"cas:0->1": true},
+		P + "_background": {"store:4": true},
+		P + "_exit":       {"cas:1->2": true}, // the workers' and the keep-alive's failure exit: the connection is already lost
+		P + "Close":       {"cas:0->2": true, "cas:1->2": true},
+	}
+	n := 0
+	for _, a := range r.P.FieldAccesses("rueidis.pipe", "state") {
+		c, isc := a.Instr.(ssa.CallInstruction)
+		if !isc {
+			if a.Write {
+				fresh := false
+				if st, ok := a.Instr.(*ssa.Store); ok {
+					_, _, base, _ := FieldRef(st.Addr)
+					_, fresh = Strip(base).(*ssa.Alloc)
+				}
+				if !fresh {
+					n++
+					r.ObSite(rule, a.Site, "state-plain-store", false, "the connection state of a shared pipe is written without an atomic operation")
+				}
+			}
+			continue
+		}
+		name := CalleeName(c)
+		args := c.Common().Args
+		var tr string
+		switch name {
+		case "sync/atomic.LoadInt32":
+			continue
+		case "sync/atomic.CompareAndSwapInt32":
+			from, ok1 := ConstInt(args[1])
+			to, ok2 := ConstInt(args[2])
+			if !ok1 || !ok2 {
+				tr = "cas:?"
+			} else {
+				tr = fmt.Sprintf("cas:%d->%d", from, to)
+			}
+		case "sync/atomic.StoreInt32":
+			if k, ok := ConstInt(args[1]); ok {
+				tr = fmt.Sprintf("store:%d", k)
+			} else {
+				tr = "store:?"
+			}
+		default:
+			tr = "op:" + name
+		}
+		n++
+		fn := FuncName(TopFunc(a.Fn))
+		r.ObSite(rule, a.Site, "state-transition:"+tr, allowed[fn][tr], "connection state transition "+tr+" in "+fn+"; transitions are owned by background (0->1), _exit (1->2 on a lost connection), _background (4) and Close (0->2, 1->2, followed by the drain fence)")
+	}
+	r.Anchor(rule, "pipe.state writers (5)", n >= 5)
+	// Close's fence depends on its own CAS results
+	if fn := r.FnAnchor(rule, P+"Close"); fn != nil {
+		fenced := false
+		for _, s := range Sites(fn, func(in ssa.Instruction) bool {
+			c, ok := in.(ssa.CallInstruction)
+			return ok && CalleeName(c) == "iface:rueidis.queue.PutOne"
+		}) {
+			fenced = Guarded(s.Block, func(g Guard) bool {
+				return g.Pol && DependsOn(g.Cond, func(v ssa.Value) bool {
+					c, ok := v.(*ssa.Call)
+					return ok && CalleeName(c) == "sync/atomic.CompareAndSwapInt32"
+				})
+			})
+			// the socket is closed only after the fence
+			for _, cs := range Sites(fn, func(in ssa.Instruction) bool { _, is := CallTo(in, "iface:net.Conn.Close"); return is }) {
+				if hit, _ := Reaches(cs, func(w Site) bool { return w.Instr == s.Instr }, nil); hit {
+					fenced = false
+				}
+			}
+		}
+		r.Ob(rule, fn, "close-drains-before-closing-the-socket", fn.Pos(), fenced, "when Close moved the pipe to stopping it queues a PING behind the requests in flight and waits for it (bounded) before the socket is closed")
 	}
 }
